@@ -700,4 +700,127 @@ Section Channel.
                              apply (pending_keep s s' p Ho); rewrite C; discriminate|apply (gi_ag s G)].
       destruct p; [exact Hep|exact Heq].
   Qed.
+
+  (* ---------- responder: reject ---------- *)
+  Lemma gi_LRSendRej s p s' : GI s -> lstep s (LRSendRej p) = Some s' -> GI s'.
+  Proof.
+    intros G H. unfold lstep in H. cbn [label_party] in H.
+    destruct (ctl (getp s p)) eqn:C; try discriminate H. injection H as <-.
+    destruct (resp_handling s p G) as (st & CY & DY & HY); [rewrite C; reflexivity|].
+    rewrite C in HY. cbn [handling] in HY. subst s0.
+    li_open G p c F V Hin L C.
+    pose proof (gi_dir s G p) as D. unfold Dir in D. rewrite C in D. destruct D as [D0 _].
+    set (s' := with_net _ _).
+    assert (Ho : getp s' (other p) = getp s (other p)) by (unfold s'; rewrite getp_with_net; apply getp_upd_other).
+    assert (Hp : getp s' p = mkParty (mc (getp s p)) Idle (flog (getp s p)))
+      by (unfold s'; rewrite getp_with_net; apply getp_upd_same).
+    assert (Hn : net s' = MRej p (st_ver st) :: net s) by reflexivity.
+    assert (Dp : dmsgs p (net s') = []).
+    { rewrite Hn, dmsgs_cons. cbn [in_dir]. rewrite pid_eqb_other. exact D0. }
+    assert (Dq : dmsgs (other p) (net s') = [MRej p (st_ver st)]).
+    { rewrite Hn, dmsgs_cons. cbn [in_dir]. rewrite other_other, pid_eqb_refl, DY. reflexivity. }
+    assert (Hep : eff s' p = eff s p) by (unfold eff, cur_state; rewrite Hp, C; reflexivity).
+    assert (Heq : eff s' (other p) = eff s (other p)).
+    { apply (eff_other s s' p Ho). rewrite Dq, DY. reflexivity. }
+    apply (GI_intro s s' p G Ho).
+    - rewrite Hp. exists c. split; [exact F|]. split; [exact V|]. split; [exact Hin|].
+      unfold LIc. cbn [ctl mc]. exact L.
+    - unfold Dir. rewrite Hp, Ho, Dp, CY. cbn [ctl]. auto.
+    - unfold Dir. rewrite other_other, Hp, Ho, Dq, CY. cbn [ctl]. right. right. right. auto.
+    - rewrite Heq, Hep. apply (sync_sym s p (gi_sync s G)).
+    - apply (AG_same s s'); [apply (flogs_same s s' p Ho); rewrite Hp; reflexivity| |
+                             apply (pending_keep s s' p Ho); rewrite C; discriminate|apply (gi_ag s G)].
+      destruct p; [exact Hep|exact Heq].
+  Qed.
+
+  (* ---------- proposer: the response arrives ---------- *)
+  Lemma resp_in_flight s p m :
+    GI s -> In m (net s) -> in_dir p m = true -> (forall f st a g, m <> MReq f st a g) ->
+    exists st, ctl (getp s p) = PWait st /\ dmsgs p (net s) = [m] /\
+      ((m = MAcc (other p) (st_ver st) (sigof (other p) st) /\ committed (getp s (other p)) st) \/
+       (m = MRej (other p) (st_ver st) /\ resp_busy (ctl (getp s (other p))) = false)).
+  Proof.
+    intros G I Din NR.
+    assert (I' : In m (dmsgs p (net s))) by (apply dmsgs_in; assumption).
+    pose proof (gi_dir s G p) as D. unfold Dir in D.
+    destruct (ctl (getp s p)) eqn:C;
+      try (destruct D as [D _]; rewrite D in I'; elim I').
+    destruct D as [[D B]|[[D _]|[[D B]|[D B]]]]; rewrite D in I'.
+    - destruct I' as [I'|[]]. elim (NR _ _ _ _ (eq_sym I')).
+    - elim I'.
+    - destruct I' as [I'|[]]. subst m. exists s0. rewrite D. auto.
+    - destruct I' as [I'|[]]. subst m. exists s0. rewrite D. auto.
+  Qed.
+
+  Lemma gi_LRecvRej s p s' : GI s -> lstep s (LRecvRej p) = Some s' -> GI s'.
+  Proof.
+    intros G H. unfold lstep in H. cbn [label_party] in H.
+    destruct (ctl (getp s p)) eqn:C; try discriminate H.
+    destruct (remove_first _ _) as [[m n']|] eqn:R; [|discriminate H]. injection H as <-.
+    destruct (remove_first_spec _ _ _ _ R) as [Rf _].
+    assert (Din : in_dir p m = true).
+    { destruct m; try discriminate Rf. cbn in Rf. apply andb_true_iff in Rf as [Rf _]. apply pid_eqb_eq in Rf.
+      subst from. cbn. apply pid_eqb_refl. }
+    destruct (resp_in_flight s p m G (remove_first_in _ _ _ _ R) Din) as (st & CP & DP & Hm).
+    { intros f st a g E. subst m. discriminate Rf. }
+    rewrite C in CP. injection CP as <-.
+    destruct Hm as [[-> _]|[-> NB]]; [discriminate Rf|].
+    destruct (dmsgs_remove _ _ _ _ p _ R Din DP) as (_ & DP' & DQ').
+    li_open G p c F V Hin L C. destruct L as (M & PO & E).
+    set (s' := with_net _ _).
+    assert (Ho : getp s' (other p) = getp s (other p)) by (unfold s'; rewrite getp_with_net; apply getp_upd_other).
+    assert (Hp : getp s' p = mkParty (mc (getp s p)) (PFail s0 RRejected) (flog (getp s p)))
+      by (unfold s'; rewrite getp_with_net; apply getp_upd_same).
+    assert (Hn : net s' = n') by reflexivity.
+    assert (Hep : eff s' p = eff s p) by (unfold eff, cur_state; rewrite Hp, C, DP; reflexivity).
+    assert (Heq : eff s' (other p) = eff s (other p)).
+    { apply (eff_other s s' p Ho). rewrite Hn, DQ'. reflexivity. }
+    apply (GI_intro s s' p G Ho).
+    - rewrite Hp. exists c. split; [exact F|]. split; [exact V|]. split; [exact Hin|].
+      unfold LIc. cbn [ctl mc]. eexists; eexists. split; [exact M|]. apply (propok_succ p c s0 PO).
+    - unfold Dir. rewrite Hp, Ho, Hn, DP'. cbn [ctl]. auto.
+    - apply (dir_other_rview s s' p Ho); [rewrite Hn; exact DQ'| | |apply (gi_dir s G)].
+      + rewrite Hp, C. reflexivity.
+      + intro st. rewrite Hp. apply committed_keep; cbn [flog mc ctl]; auto. rewrite C. reflexivity.
+    - rewrite Heq, Hep. apply (sync_sym s p (gi_sync s G)).
+    - apply (AG_same s s'); [apply (flogs_same s s' p Ho); rewrite Hp; reflexivity| |
+                             apply (pending_keep s s' p Ho); rewrite C; discriminate|apply (gi_ag s G)].
+      destruct p; [exact Hep|exact Heq].
+  Qed.
+
+  Lemma gi_LRecvAcc s p s' : GI s -> lstep s (LRecvAcc p) = Some s' -> GI s'.
+  Proof.
+    intros G H. unfold lstep in H. cbn [label_party] in H.
+    destruct (ctl (getp s p)) eqn:C; try discriminate H.
+    destruct (remove_first _ _) as [[m n']|] eqn:R; [|discriminate H].
+    destruct (remove_first_spec _ _ _ _ R) as [Rf _].
+    assert (Din : in_dir p m = true).
+    { destruct m; try discriminate Rf. cbn in Rf. apply andb_true_iff in Rf as [Rf _]. apply pid_eqb_eq in Rf.
+      subst from. cbn. apply pid_eqb_refl. }
+    destruct (resp_in_flight s p m G (remove_first_in _ _ _ _ R) Din) as (st & CP & DP & Hm).
+    { intros f st a g E. subst m. discriminate Rf. }
+    rewrite C in CP. injection CP as <-.
+    destruct Hm as [[-> CM]|[-> _]]; [|discriminate Rf]. injection H as <-.
+    destruct (dmsgs_remove _ _ _ _ p _ R Din DP) as (_ & DP' & DQ').
+    li_open G p c F V Hin L C.
+    set (s' := with_net _ _).
+    assert (Ho : getp s' (other p) = getp s (other p)) by (unfold s'; rewrite getp_with_net; apply getp_upd_other).
+    assert (Hp : getp s' p = mkParty (mc (getp s p)) (PAcc s0 (sigof (other p) s0)) (flog (getp s p)))
+      by (unfold s'; rewrite getp_with_net; apply getp_upd_same).
+    assert (Hn : net s' = n') by reflexivity.
+    assert (Hep : eff s' p = eff s p) by (unfold eff, cur_state; rewrite Hp, C, DP; reflexivity).
+    assert (Heq : eff s' (other p) = eff s (other p)).
+    { apply (eff_other s s' p Ho). rewrite Hn, DQ'. reflexivity. }
+    apply (GI_intro s s' p G Ho).
+    - rewrite Hp. exists c. split; [exact F|]. split; [exact V|]. split; [exact Hin|].
+      unfold LIc. cbn [ctl mc]. exact L.
+    - unfold Dir. rewrite Hp, Ho, Hn, DP'. cbn [ctl]. auto.
+    - apply (dir_other_rview s s' p Ho); [rewrite Hn; exact DQ'| | |apply (gi_dir s G)].
+      + rewrite Hp, C. reflexivity.
+      + intro st. rewrite Hp. apply committed_keep; cbn [flog mc ctl]; auto. rewrite C. reflexivity.
+    - rewrite Heq, Hep. apply (sync_sym s p (gi_sync s G)).
+    - apply (AG_same s s'); [apply (flogs_same s s' p Ho); rewrite Hp; reflexivity| |
+                             apply (pending_keep s s' p Ho); rewrite C; discriminate|apply (gi_ag s G)].
+      destruct p; [exact Hep|exact Heq].
+  Qed.
 End Channel.
